@@ -224,8 +224,8 @@ func TestC05_Arith(t *testing.T) {
 		}
 		kind := rapid.IntRange(0, 11).Draw(t, "kind")
 		var e ast.Expr
-		var exact *big.Rat    // expected exact numeric value
-		var expBool *bool     // expected boolean (comparisons)
+		var exact *big.Rat     // expected exact numeric value
+		var expBool *bool      // expected boolean (comparisons)
 		expErr := model.Cat(0) // expected error
 		undet := ""
 		label := ""
